@@ -27,6 +27,7 @@ pub uninterp spec fn rb<R: ?Sized>(r: &R, v: Value) -> Value;
         ensures
             final(vals)@.len() == old(vals)@.len(),
             forall|i: int| 0 <= i < old(vals)@.len() ==> #[trigger] final(vals)@[i] == rb(self, old(vals)@[i]),
+            forall|i: int| 0 <= i < old(vals)@.len() ==> rb(self, #[trigger] old(vals)@[i]) == final(vals)@[i],
             r == exists|i: int| 0 <= i < old(vals)@.len() && rb(self, #[trigger] old(vals)@[i]) != old(vals)@[i],
 //@ at loop 0 spec
             invariant
@@ -71,6 +72,293 @@ pub uninterp spec fn rb<R: ?Sized>(r: &R, v: Value) -> Value;
             r == (old(self).do_rebuild && exists|i: int| 0 <= i < old(self).data@.len() && rb(rebuilder, #[trigger] old(self).data@[i]) != old(self).data@[i]),
             // the trait's documented obligation: `false` means the container was not modified
             !r ==> final(self).data@ =~= old(self).data@,
+//@ end-fn
+//@ end-impl
+
+// ---- Set / MultiSet containers (src/sort/set.rs, src/sort/multiset.rs) --------------------------------------
+/// A-std: the element stream of a std/egglog ordered collection: `iter().copied()` yields the sequence `view()`
+#[verifier::external_body]
+#[verifier::reject_recursive_types(T)]
+pub struct ElemIter<T> { _p: core::marker::PhantomData<T> }
+pub trait VcFromElems<T>: Sized { spec fn vc_elems(&self) -> Seq<T>; }
+impl<T> VcFromElems<T> for Vec<T> { open spec fn vc_elems(&self) -> Seq<T> { self@ } }
+impl<T> ElemIter<T> {
+    pub uninterp spec fn view(&self) -> Seq<T>;
+    #[verifier::external_body]
+    pub fn copied(self) -> (r: ElemIter<T>) ensures r@ == self@ { unimplemented!() }
+    #[verifier::external_body]
+    pub fn collect<B: VcFromElems<T>>(self) -> (r: B) ensures r.vc_elems() == self@ { unimplemented!() }
+}
+/// what `FromIterator::from_iter` over a vector builds (R-INTOCOLLECT); assumed per target collection
+pub trait VcFromVec<T>: Sized { spec fn vc_built_from(&self, s: Seq<T>) -> bool; }
+#[verifier::external_body]
+pub fn vc_collect_vec<T, B: VcFromVec<T>>(v: Vec<T>) -> (r: B) ensures r.vc_built_from(v@) { unimplemented!() }
+
+/// A-std: std::collections::BTreeSet as a finite set; iteration yields every element (exactly once)
+#[verifier::external_body]
+#[verifier::reject_recursive_types(T)]
+pub struct BTreeSet<T> { _p: core::marker::PhantomData<T> }
+impl<T> BTreeSet<T> {
+    pub uninterp spec fn view(&self) -> Set<T>;
+    #[verifier::external_body]
+    pub fn iter(&self) -> (r: ElemIter<T>)
+        ensures
+            forall|i: int| 0 <= i < r@.len() ==> self@.contains(#[trigger] r@[i]),
+            forall|x: T| #[trigger] self@.contains(x) ==> exists|i: int| 0 <= i < r@.len() && r@[i] == x,
+    { unimplemented!() }
+}
+impl<T> VcFromVec<T> for BTreeSet<T> {
+    open spec fn vc_built_from(&self, s: Seq<T>) -> bool {
+        &&& forall|i: int| 0 <= i < s.len() ==> self@.contains(#[trigger] s[i])
+        &&& forall|x: T| #[trigger] self@.contains(x) ==> exists|i: int| 0 <= i < s.len() && s[i] == x
+    }
+}
+/// A-db: egglog's `inner::MultiSet` (BTreeMap<T, usize> + cached length) as a multiset; iteration yields every element
+/// with its multiplicity, `from_iter` inserts every element once (src/sort/multiset.rs:1007)
+#[verifier::external_body]
+#[verifier::reject_recursive_types(T)]
+pub struct MultiSet<T> { _p: core::marker::PhantomData<T> }
+impl<T> MultiSet<T> {
+    pub uninterp spec fn view(&self) -> vstd::multiset::Multiset<T>;
+    #[verifier::external_body]
+    pub fn iter(&self) -> (r: ElemIter<T>)
+        ensures
+            r@.to_multiset() == self@,
+            // consequences of the line above (vstd to_multiset_ensures), stated so that callers need no hint
+            forall|i: int| 0 <= i < r@.len() ==> self@.count(#[trigger] r@[i]) > 0,
+            forall|x: T| #[trigger] self@.count(x) > 0 ==> exists|i: int| 0 <= i < r@.len() && r@[i] == x,
+    { unimplemented!() }
+}
+impl<T> VcFromVec<T> for MultiSet<T> {
+    open spec fn vc_built_from(&self, s: Seq<T>) -> bool { self@ == s.to_multiset() }
+}
+
+//@ item src/sort/set.rs struct SetContainer
+//@ item src/sort/multiset.rs struct MultiSetContainer
+
+//@ impl src/sort/set.rs impl ContainerValue for SetContainer => impl SetContainer
+//@ fn rebuild_contents
+//@ ret r
+//@ rewrite R-INTOCOLLECT
+//@ at sig
+        ensures
+            final(self).do_rebuild == old(self).do_rebuild,
+            // the new set is the image of the old one under the rebuilder (elements that become equal collapse)
+            old(self).do_rebuild ==> (forall|y: Value| #[trigger] final(self).data@.contains(y) <==> exists|x: Value| old(self).data@.contains(x) && rb(rebuilder, x) == y),
+            !old(self).do_rebuild ==> final(self).data@ == old(self).data@,
+            r == (old(self).do_rebuild && exists|x: Value| old(self).data@.contains(x) && rb(rebuilder, x) != x),
+            // the trait's documented obligation: `false` means the container was not modified
+            !r ==> final(self).data@ =~= old(self).data@,
+//@ end-fn
+//@ end-impl
+
+//@ impl src/sort/multiset.rs impl ContainerValue for MultiSetContainer => impl MultiSetContainer
+//@ fn rebuild_contents
+//@ ret r
+//@ rewrite R-INTOCOLLECT
+//@ at sig
+        ensures
+            final(self).do_rebuild == old(self).do_rebuild,
+            // the new multiset is the image of the old one, multiplicities added up: some enumeration s of the old
+            // multiset is mapped element by element
+            old(self).do_rebuild ==> exists|s: Seq<Value>, t: Seq<Value>| #![trigger s.to_multiset(), t.to_multiset()]
+                s.to_multiset() == old(self).data@ && t.to_multiset() == final(self).data@
+                && t.len() == s.len() && forall|i: int| 0 <= i < s.len() ==> #[trigger] t[i] == rb(rebuilder, s[i]),
+            !old(self).do_rebuild ==> final(self).data@ == old(self).data@,
+            r == (old(self).do_rebuild && exists|x: Value| old(self).data@.count(x) > 0 && rb(rebuilder, x) != x),
+//@ end-fn
+//@ end-impl
+
+// ---- Map container (src/sort/map.rs) -------------------------------------------------------------------------
+/// A-std: std::collections::BTreeMap as a finite map with an iteration order `order()` over its keys
+#[verifier::external_body]
+#[verifier::reject_recursive_types(K)]
+#[verifier::reject_recursive_types(V)]
+pub struct BTreeMap<K, V> { _p: core::marker::PhantomData<(K, V)> }
+impl<K, V> BTreeMap<K, V> {
+    pub uninterp spec fn view(&self) -> Map<K, V>;
+    /// the keys in iteration order, each once
+    pub uninterp spec fn order(&self) -> Seq<K>;
+    pub open spec fn ordered(&self) -> bool {
+        &&& forall|i: int, j: int| 0 <= i < j < self.order().len() ==> self.order()[i] != self.order()[j]
+        &&& forall|i: int| 0 <= i < self.order().len() ==> self@.dom().contains(#[trigger] self.order()[i])
+        &&& forall|k: K| #[trigger] self@.dom().contains(k) ==> exists|i: int| 0 <= i < self.order().len() && self.order()[i] == k
+    }
+    /// the entries that `iter()` yields (see R-MAPCOLLECT via=)
+    #[verifier::external_body]
+    pub fn vc_entries(&self) -> (r: &Vec<(K, V)>)
+        ensures
+            self.ordered(),
+            r@.len() == self.order().len(),
+            forall|i: int| 0 <= i < r@.len() ==> (#[trigger] r@[i]).0 == self.order()[i] && r@[i].1 == self@[self.order()[i]],
+    { unimplemented!() }
+    /// the values that `values_mut()` yields, in key order; writing through them changes exactly those values (R-ITERMUT)
+    #[verifier::external_body]
+    pub fn vc_values_mut(&mut self) -> (r: &mut Vec<V>)
+        ensures
+            old(self).ordered(),
+            r@.len() == old(self).order().len(),
+            forall|i: int| 0 <= i < r@.len() ==> #[trigger] r@[i] == old(self)@[old(self).order()[i]],
+            final(r)@.len() == r@.len() ==> {
+                &&& final(self).order() == old(self).order()
+                &&& final(self)@.dom() == old(self)@.dom()
+                &&& forall|i: int| 0 <= i < r@.len() ==> final(self)@[#[trigger] old(self).order()[i]] == final(r)@[i]
+            },
+    { unimplemented!() }
+}
+impl<K, V> VcFromVec<(K, V)> for BTreeMap<K, V> {
+    /// FromIterator for BTreeMap: the keys are those of the pairs; every key carries the value of one of its pairs
+    /// (the last one - not needed: which value survives a key collision is outside the claim of C14)
+    open spec fn vc_built_from(&self, s: Seq<(K, V)>) -> bool {
+        &&& forall|i: int| 0 <= i < s.len() ==> self@.dom().contains((#[trigger] s[i]).0)
+        &&& forall|k: K| #[trigger] self@.dom().contains(k) ==> exists|i: int| 0 <= i < s.len() && s[i].0 == k && s[i].1 == self@[k]
+    }
+}
+
+//@ item src/sort/map.rs struct MapContainer
+pub open spec fn mk<R: ?Sized>(r: &R, flag: bool, v: Value) -> Value { if flag { rb(r, v) } else { v } }
+
+//@ impl src/sort/map.rs impl ContainerValue for MapContainer => impl MapContainer
+//@ fn rebuild_contents
+//@ ret r
+//@ rewrite R-RENAME old oldv
+//@ rewrite R-BOOLOP changed
+//@ rewrite R-MAPCOLLECT pat via=vc_entries into ty=(Value,Value) rty=BTreeMap<Value,Value>
+//@ rewrite R-ITERMUT 0
+//@ at sig
+        ensures
+            final(self).do_rebuild_keys == old(self).do_rebuild_keys,
+            final(self).do_rebuild_vals == old(self).do_rebuild_vals,
+            // the new key set is the image of the old one under the rebuilder (when keys are rebuilt) ...
+            forall|k2: Value| #[trigger] final(self).data@.dom().contains(k2) <==>
+                exists|k: Value| old(self).data@.dom().contains(k) && mk(rebuilder, old(self).do_rebuild_keys, k) == k2,
+            // ... and every key carries the rebuilt value of (one of) the old key(s) it comes from; which one survives a
+            // key collision is outside the claim of C14
+            forall|k2: Value| #[trigger] final(self).data@.dom().contains(k2) ==>
+                exists|k: Value| old(self).data@.dom().contains(k) && mk(rebuilder, old(self).do_rebuild_keys, k) == k2
+                    && final(self).data@[k2] == mk(rebuilder, old(self).do_rebuild_vals, old(self).data@[k]),
+            // `changed` is reported only for a real change, always for a changed key, and always for a changed value when
+            // keys are left alone
+            r ==> exists|k: Value| old(self).data@.dom().contains(k) && ((old(self).do_rebuild_keys && rb(rebuilder, k) != k)
+                    || (old(self).do_rebuild_vals && rb(rebuilder, old(self).data@[k]) != old(self).data@[k])),
+            old(self).do_rebuild_keys && (exists|k: Value| old(self).data@.dom().contains(k) && rb(rebuilder, k) != k) ==> r,
+            !old(self).do_rebuild_keys && old(self).do_rebuild_vals
+                && (exists|k: Value| old(self).data@.dom().contains(k) && rb(rebuilder, old(self).data@[k]) != old(self).data@[k]) ==> r,
+            // the trait's documented obligation: `false` means the container was not modified
+            !r ==> final(self).data@ =~= old(self).data@,
+//@ at entry
+        let ghost m0 = self.data@;
+        let ghost mut mid = self.data@;   // the map after the key pass
+        let ghost mut cmid = false;       // `changed` after the key pass
+//@ at mapcollect 0 spec
+                invariant
+                    __k0 <= __src0@.len(),
+                    __v0@.len() == __k0,
+                    forall|i: int| 0 <= i < __k0 ==> (#[trigger] __v0@[i]).0 == rb(rebuilder, __src0@[i].0) && __v0@[i].1 == __src0@[i].1,
+                    changed == exists|i: int| 0 <= i < __k0 && rb(rebuilder, (#[trigger] __src0@[i]).0) != __src0@[i].0,
+                decreases __src0@.len() - __k0,
+//@ at mapcollect 0 after-collect
+            proof {
+                // K: what re-collecting the pairs with rebuilt keys gives (m1), in terms of the map before (m0)
+                let m1 = __r0@;
+                let ord = self.data.order();
+                assert(self.data@ == m0);
+                assert forall|k2: Value| #[trigger] m1.dom().contains(k2) implies
+                    exists|k: Value| m0.dom().contains(k) && rb(rebuilder, k) == k2 && m1[k2] == m0[k] by {
+                    let i = choose|i: int| 0 <= i < __v0@.len() && __v0@[i].0 == k2 && __v0@[i].1 == m1[k2];
+                    assert(__src0@[i].0 == ord[i]);
+                    assert(m0.dom().contains(ord[i]));
+                }
+                assert forall|k: Value| #[trigger] m0.dom().contains(k) implies m1.dom().contains(rb(rebuilder, k)) by {
+                    let i = choose|i: int| 0 <= i < ord.len() && ord[i] == k;
+                    assert(__src0@[i].0 == k);
+                    assert(__v0@[i].0 == rb(rebuilder, k));
+                }
+                assert(changed == exists|k: Value| m0.dom().contains(k) && rb(rebuilder, k) != k) by {
+                    if changed {
+                        let i = choose|i: int| 0 <= i < __src0@.len() && rb(rebuilder, (#[trigger] __src0@[i]).0) != __src0@[i].0;
+                        assert(m0.dom().contains(ord[i]));
+                    }
+                    if exists|k: Value| m0.dom().contains(k) && rb(rebuilder, k) != k {
+                        let k = choose|k: Value| m0.dom().contains(k) && rb(rebuilder, k) != k;
+                        let i = choose|i: int| 0 <= i < ord.len() && ord[i] == k;
+                        assert(__src0@[i].0 == k);
+                    }
+                }
+                if !changed {
+                    assert forall|k: Value| m0.dom().contains(k) implies #[trigger] m1.dom().contains(k) && m1[k] == m0[k] by {
+                        assert(m1.dom().contains(rb(rebuilder, k)));
+                        let i = choose|i: int| 0 <= i < __v0@.len() && __v0@[i].0 == k && __v0@[i].1 == m1[k];
+                        assert(__src0@[i].0 == ord[i]);
+                    }
+                    assert forall|k: Value| m1.dom().contains(k) implies #[trigger] m0.dom().contains(k) by {
+                        let i = choose|i: int| 0 <= i < __v0@.len() && __v0@[i].0 == k && __v0@[i].1 == m1[k];
+                        assert(__src0@[i].0 == ord[i]);
+                        assert(m0.dom().contains(ord[i]));
+                    }
+                    assert(m1 =~= m0);
+                }
+                mid = m1;
+                cmid = changed;
+            }
+//@ at before-loop 0
+            let ghost m1 = self.data@;
+            let ghost ord1 = self.data.order();
+            let ghost c1 = changed;
+//@ at loop 0 spec
+                invariant
+                    __j0 <= __n0,
+                    __n0 == __vm0@.len(),
+                    __n0 == ord1.len(),
+                    forall|i: int| 0 <= i < __j0 ==> #[trigger] __vm0@[i] == rb(rebuilder, m1[ord1[i]]),
+                    forall|i: int| __j0 <= i < __n0 ==> #[trigger] __vm0@[i] == m1[ord1[i]],
+                    changed == (c1 || exists|i: int| 0 <= i < __j0 && rb(rebuilder, m1[#[trigger] ord1[i]]) != m1[ord1[i]]),
+                decreases __n0 - __j0,
+//@ at after-loop 0
+            proof {
+                let m2 = self.data@;
+                assert(m2.dom() == m1.dom());
+                assert forall|k: Value| #[trigger] m1.dom().contains(k) implies m2[k] == rb(rebuilder, m1[k]) by {
+                    let i = choose|i: int| 0 <= i < ord1.len() && ord1[i] == k;
+                    assert(m2[ord1[i]] == __vm0@[i]);
+                }
+                assert(changed == (c1 || exists|k: Value| m1.dom().contains(k) && rb(rebuilder, m1[k]) != m1[k])) by {
+                    if exists|i: int| 0 <= i < __n0 && rb(rebuilder, m1[#[trigger] ord1[i]]) != m1[ord1[i]] {
+                        let i = choose|i: int| 0 <= i < __n0 && rb(rebuilder, m1[#[trigger] ord1[i]]) != m1[ord1[i]];
+                        assert(m1.dom().contains(ord1[i]));
+                    }
+                    if exists|k: Value| m1.dom().contains(k) && rb(rebuilder, m1[k]) != m1[k] {
+                        let k = choose|k: Value| m1.dom().contains(k) && rb(rebuilder, m1[k]) != m1[k];
+                        let i = choose|i: int| 0 <= i < ord1.len() && ord1[i] == k;
+                    }
+                }
+                if !changed { assert(m2 =~= m1); }
+            }
+//@ at tail
+        proof {
+            let mf = self.data@;
+            let fk = old(self).do_rebuild_keys;
+            let fv = old(self).do_rebuild_vals;
+            assert(cmid == (fk && exists|k: Value| m0.dom().contains(k) && rb(rebuilder, k) != k));
+            assert(!cmid ==> mid =~= m0);
+            assert forall|k2: Value| #[trigger] mid.dom().contains(k2) implies
+                exists|k: Value| m0.dom().contains(k) && mk(rebuilder, fk, k) == k2 && mid[k2] == m0[k] by {
+                if !fk { assert(mid == m0); assert(m0.dom().contains(k2) && mk(rebuilder, fk, k2) == k2 && mid[k2] == m0[k2]); } else {
+                    let k = choose|k: Value| m0.dom().contains(k) && rb(rebuilder, k) == k2 && mid[k2] == m0[k];
+                    assert(m0.dom().contains(k) && rb(rebuilder, k) == k2 && mid[k2] == m0[k]);
+                    assert(mk(rebuilder, fk, k) == k2);
+                }
+            }
+            assert forall|k: Value| #[trigger] m0.dom().contains(k) implies mid.dom().contains(mk(rebuilder, fk, k)) by {}
+            assert(mf.dom() == mid.dom());
+            assert forall|k: Value| #[trigger] mid.dom().contains(k) implies mf[k] == mk(rebuilder, fv, mid[k]) by {}
+            assert forall|k2: Value| #[trigger] mf.dom().contains(k2) implies
+                exists|k: Value| m0.dom().contains(k) && mk(rebuilder, fk, k) == k2 && mf[k2] == mk(rebuilder, fv, m0[k]) by {
+                assert(mid.dom().contains(k2));
+                let k = choose|k: Value| m0.dom().contains(k) && mk(rebuilder, fk, k) == k2 && mid[k2] == m0[k];
+                assert(mf[k2] == mk(rebuilder, fv, mid[k2]));
+            }
+        }
 //@ end-fn
 //@ end-impl
 
